@@ -35,7 +35,7 @@ OptNames == {"ignore_init_summary"}     \* trim_doctest_flags, warn_unknown_para
 \* tuplefn: function returning tuple[int, str]; genfn: function returning Generator[tuple[..], tuple[..], tuple[..]]
 \* aliasmod: a module in which every documented name is imported from a package that is not loaded (unresolvable alias)
 Parents == {"none", "module", "class", "function", "init", "property", "tuplefn", "genfn", "aliasmod", "tupleprop", "tuple0fn", "gen1fn", "gen2fn", "iterfn",
-            "detachedinit"}      \* detachedinit: a hand-built function named __init__ without any parent (not "__init__ in a class")
+            "detachedinit", "nsfunc"}      \* nsfunc: a function of a namespace package (filepath is a list) outside the cwd: warnings have no file prefix      \* detachedinit: a hand-built function named __init__ without any parent (not "__init__ in a class")
 
 ParamKinds == {"parameters", "other_parameters"}
 RetKinds == {"returns", "yields", "receives"}
@@ -296,7 +296,12 @@ RenderAll(st, acc) ==
   IF st = <<>> THEN acc
   ELSE LET r == RenderSection(Head(st), Len(acc.lines) + 1)
        IN RenderAll(Tail(st), [lines |-> acc.lines \o <<Blank>> \o r.lines, sig |-> acc.sig \o <<NoSig>> \o r.sig, expect |-> Append(acc.expect, r.exp)])
-RenderLines(st) == RenderAll(st, [lines |-> <<Ln(0, "N")>>, sig |-> <<NoSig>>, expect |-> <<TextSec(<<0>>)>>])
+\* the free text before the sections: one line ("plain"), or a paragraph followed by an INDENTED fenced code block (as nested in a list
+\* item) - the block must be closed by its indented fence, or every following section leaks into the text
+RenderLines(st, intro) ==
+  IF intro = "plain" THEN RenderAll(st, [lines |-> <<Ln(0, "N")>>, sig |-> <<NoSig>>, expect |-> <<TextSec(<<0>>)>>])
+  ELSE RenderAll(st, [lines |-> <<Ln(0, "N"), Blank, FenceL(4), Ln(4, "X"), FenceL(4)>>, sig |-> [j \in 1..5 |-> NoSig],
+                      expect |-> <<TextSec(<<0, 1, 2, 3, 4>>)>>])
 
 \* ---- Init -----------------------------------------------------------------------------------------------------
 \* every cleandoc-stable sequence of 1..MaxLen classes (enumerated piecewise: first line, middle, last line), + the empty docstring
@@ -317,9 +322,9 @@ WrapOK(st, w) ==
   IF S = {} THEN w = "plain"
   ELSE \A j \in S : (st[j].kind = "returns" /\ w = "plain") \/ (st[j].kind = "yields" /\ w # "plain") \/ (st[j].kind = "receives" /\ w = "gen")
 InitStruct ==
-  \E st \in Structs, w \in {"plain", "iter", "gen"} :
+  \E st \in Structs, w \in {"plain", "iter", "gen"}, intro \in {"plain", "fenced"} :
     /\ StructOK(st) /\ WrapOK(st, w) /\ wrap = w
-    /\ LET r == RenderLines(st) IN lines = r.lines /\ sig = r.sig /\ expect = r.expect
+    /\ LET r == RenderLines(st, intro) IN lines = r.lines /\ sig = r.sig /\ expect = r.expect
     /\ opts = [o \in OptNames |-> "F"] /\ pcand = {"function"}
 Init ==
   /\ IF Mode = "seq" THEN InitSeq ELSE InitStruct
